@@ -36,9 +36,11 @@ def grid(rng, n, kind=None, exact_ends=True):
     return g
 
 def density(rng, n, kind=None):
-    kind = kind or rng.choice(['random', 'random', 'spike', 'smooth'])
+    kind = kind or rng.choice(['random', 'random', 'spike', 'smooth', 'signed'])
     if kind == 'random':
         return [lib.dyadic(rng, 0, 8, 8) for _ in range(n)]
+    if kind == 'signed':     # sign-changing density with exact zeros: every operator is linear, densities go negative in real use
+        return [rng.choice([0.0, lib.dyadic(rng, -8, 8, 8), lib.dyadic(rng, -8, 8, 8)]) for _ in range(n)]
     if kind == 'spike':
         v = [0.0] * n
         for _ in range(max(1, n // 6)):
